@@ -145,9 +145,9 @@ PropIds == {"C03", "C04", "C05", "C06", "C07", "C15", "C17"}
 (* Strict conformance with the operational model: the recorded result is one of the results        *)
 (* Apply allows for the recorded pre-state and arguments.  A mismatch is DRIFT (model and code      *)
 (* disagree without a property being violated): reported, never a verdict.                          *)
-\* (single-child inner nodes: only RemoveTips is modelled on them - the chain case of removeTip)
+\* (single-child inner nodes: only RemoveTips - the chain case of removeTip - and RemoveSingleNodes are modelled on them)
 Conforms(ev, V, W) ==
-  IF ~Modelled(ev) \/ (SingleNodes(V) # {} /\ ev.op # "RemoveTips") \/ Cardinality(V.tips) < 3 THEN TRUE
+  IF ~Modelled(ev) \/ (SingleNodes(V) # {} /\ ev.op \notin {"RemoveTips", "RemoveSingleNodes"}) \/ Cardinality(V.tips) < 3 THEN TRUE
   ELSE LET r == Apply(FromView(V), ev)
        IN  /\ r.ok
            /\ \E t \in r.res : IF RootExact(ev) THEN Canon(MView(t)) = Canon(W)
